@@ -22,6 +22,10 @@ type c15Case struct {
 	Reg    int    `json:"reg"`    // faulted registration
 	Serial int    `json:"serial"` // faulted invocation
 	Kind   string `json:"kind"`   // err | nil | panic:string | panic:error | panic:struct | panic:nil
+	// an optional second fault at another (registration, invocation): err | panic:string
+	Reg2    int    `json:"reg2,omitempty"`
+	Serial2 int    `json:"serial2,omitempty"`
+	Kind2   string `json:"kind2,omitempty"`
 }
 
 func c15Spec(shape, lives string) kit.Spec {
@@ -108,6 +112,11 @@ func c15Run(c c15Case) (*Env, []Finding) {
 	m := NewModel(&spec)
 	e := NewEnv(&spec)
 	e.W.Faults[fmt.Sprintf("%d:%d", c.Reg, c.Serial)] = c.Kind
+	if c.Kind2 != "" {
+		e.W.Faults[fmt.Sprintf("%d:%d", c.Reg2, c.Serial2)] = c.Kind2
+	}
+	// kindFired: the kind of the fault whose constructor call happened last among calls[from:]
+	curKind := c.Kind
 	e.Build()
 	var out []Finding
 	bad := func(clause string, extra []string, d string) {
@@ -115,12 +124,16 @@ func c15Run(c c15Case) (*Env, []Finding) {
 		out = append(out, Finding{f, d})
 	}
 	faultFired := func(from int) *kit.Call {
+		var hit *kit.Call
 		for _, cl := range e.W.Calls[from:] {
 			if cl.Reg == c.Reg && cl.Serial == c.Serial {
-				return cl
+				hit, curKind = cl, c.Kind
+			}
+			if c.Kind2 != "" && cl.Reg == c.Reg2 && cl.Serial == c.Serial2 {
+				hit, curKind = cl, c.Kind2
 			}
 		}
-		return nil
+		return hit
 	}
 	// checkErr verifies that err exposes the injected failure
 	checkErr := func(where string, err error) {
@@ -135,11 +148,11 @@ func c15Run(c c15Case) (*Env, []Finding) {
 		}
 		phase = append(phase, "via-optional", depOpt)
 		switch {
-		case c.Kind == "nil":
+		case curKind == "nil":
 			// a constructor returning nil: no specific error demanded
 		case err == nil:
-			bad("fault-swallowed", phase, fmt.Sprintf("the constructor of r%d (%s) failed with %q during %s but the operation reported success", c.Reg, spec.Regs[regIdx(&spec, c.Reg)].String(), c.Kind, where))
-		case c.Kind == "err":
+			bad("fault-swallowed", phase, fmt.Sprintf("the constructor of r%d (%s) failed with %q during %s but the operation reported success", c.Reg, spec.Regs[regIdx(&spec, c.Reg)].String(), curKind, where))
+		case curKind == "err":
 			var ie *kit.InjErr
 			if !errors.As(err, &ie) || len(e.W.InjErrs) == 0 || ie != e.W.InjErrs[len(e.W.InjErrs)-1] {
 				bad("constructor-error-not-wrapped", phase, fmt.Sprintf("%s error does not wrap the constructor's own error (errors.As fails): %v", where, firstLine(err.Error())))
@@ -152,7 +165,7 @@ func c15Run(c c15Case) (*Env, []Finding) {
 			}
 			want := e.W.PanicVals[len(e.W.PanicVals)-1]
 			ok := false
-			switch c.Kind {
+			switch curKind {
 			case "panic:nil":
 				ok = pe.Panic != nil // Go turns panic(nil) into *runtime.PanicNilError
 			case "panic:error":
@@ -187,7 +200,11 @@ func c15Run(c c15Case) (*Env, []Finding) {
 	}
 	e.Do(Op{Kind: "scope", Bind: "s1"})
 	top := Op{Kind: "get", Scope: "s1", T: "D0"}
-	for attempt := 1; attempt <= 3; attempt++ {
+	attempts := 3
+	if c.Kind2 != "" {
+		attempts = 4
+	}
+	for attempt := 1; attempt <= attempts; attempt++ {
 		n0 := len(e.W.Calls)
 		r := e.Do(top)
 		if r.Panic != nil {
@@ -203,7 +220,7 @@ func c15Run(c c15Case) (*Env, []Finding) {
 	// everything else resolves too, in a second scope, like on a fresh container
 	e.Do(Op{Kind: "scope", Bind: "s2"})
 	r2 := e.Do(Op{Kind: "get", Scope: "s2", T: "D0"})
-	if r2.Err != nil && faultFired(0) != nil && c.Serial == 1 {
+	if r2.Err != nil && c.Kind2 == "" && faultFired(0) != nil && c.Serial == 1 {
 		bad("later-scope-failed", []string{"class", r2.Class}, fmt.Sprintf("a later scope cannot resolve after an earlier failure: %v", firstLine(r2.Err.Error())))
 	}
 	e.Do(Op{Kind: "close", Scope: ""})
@@ -252,11 +269,11 @@ func c15Faults(r *mc.Report, shape string) {
 		r.Validated++
 		r.States++
 		r.Transitions += int64(len(e.Results) + 1)
-		r.Outcome(fmt.Sprintf("%s/%s r%d#%d %s | %s", c.Shape, c.Lives, c.Reg, c.Serial, c.Kind, e.Summary()))
+		r.Outcome(fmt.Sprintf("%s/%s r%d#%d %s r%d#%d %s | %s", c.Shape, c.Lives, c.Reg, c.Serial, c.Kind, c.Reg2, c.Serial2, c.Kind2, e.Summary()))
 		fs = append(fs, genericFindings(nil, s)...)
 		for _, f := range fs {
 			f.F["shape"] = c.Shape
-			r.Violate(f.F, f.Detail+fmt.Sprintf("\n  shape %s, lifetimes %s, fault %s at r%d invocation %d\n  %s", c.Shape, c.Lives, c.Kind, c.Reg, c.Serial, e.Summary()), c)
+			r.Violate(f.F, f.Detail+fmt.Sprintf("\n  shape %s, lifetimes %s, fault %s at r%d invocation %d (second fault: %q at r%d invocation %d)\n  %s", c.Shape, c.Lives, c.Kind, c.Reg, c.Serial, c.Kind2, c.Reg2, c.Serial2, e.Summary()), c)
 		}
 		if len(r.Samples) < 2 && c.Serial == 1 && c.Reg == 1 {
 			r.Sample(map[string]any{"case": c, "observed": e.Summary()})
@@ -278,8 +295,31 @@ func c15Faults(r *mc.Report, shape string) {
 				}
 			}
 		}
+		if !c15Pairs {
+			continue
+		}
+		// (thorough) two faults per execution: every pair of distinct (registration, invocation<=2) positions x {err, panic}^2
+		type pos struct{ reg, serial int }
+		var ps []pos
+		for _, reg := range spec.Regs {
+			for serial := 1; serial <= 2; serial++ {
+				ps = append(ps, pos{reg.ID, serial})
+			}
+		}
+		for i, a := range ps {
+			for _, b := range ps[i+1:] {
+				for _, k1 := range []string{"err", "panic:string"} {
+					for _, k2 := range []string{"err", "panic:string"} {
+						run(c15Case{Shape: shape, Lives: lives, Reg: a.reg, Serial: a.serial, Kind: k1, Reg2: b.reg, Serial2: b.serial, Kind2: k2})
+					}
+				}
+			}
+		}
 	}
 }
+
+// c15Pairs: (thorough) also explore two faults per execution.
+var c15Pairs bool
 
 // ---- API inputs: nothing panics
 
@@ -613,10 +653,11 @@ func firstLineErr(e error) string {
 func init() {
 	mc.Register(&mc.Check{
 		Prop:        "C15",
-		Rule:        "fault sequences: 9 dependency shapes (chain, diamond, group consumer, In-struct with key/optional, optional-but-registered dependencies, an optional-but-registered dependency whose own group members / keyed dependencies / their dependencies fail, two-output producer, interface-typed producer, result-object producer with an error return) x 5 lifetime patterns x every registration x invocation 1..3 x {returns error, returns nil, panics with string / error / struct / nil}; each execution: Build, scope, three attempts at the root service, a second scope, Close; oracle: no panic escapes, an error fault is reachable with errors.As (same pointer), a panic fault is a ConstructorPanicError carrying the value, retries without a pending fault succeed, lifetime / wiring / disposal oracles hold (nothing half-built is cached, nothing successfully built is rebuilt or leaked). API inputs: ~1,000 calls of every exported entry point with nil / typed-nil / zero / unregistered / mismatched / invalid arguments must not panic; Must* helpers panic iff the plain call errs. Schedules: a resolution overlapping Close(scope|provider) whose late instance fails its own Close - the returned error must still satisfy errors.Is(disposed) (bound 2/3). Error classes: 30 routes through Build / resolution / registration / module wrappers must be recognisable with errors.Is/As. distinct = canonical observation strings.",
+		Rule:        "fault sequences: 9 dependency shapes (chain, diamond, group consumer, In-struct with key/optional, optional-but-registered dependencies, an optional-but-registered dependency whose own group members / keyed dependencies / their dependencies fail, two-output producer, interface-typed producer, result-object producer with an error return) x 5 lifetime patterns x every registration x invocation 1..3 x {returns error, returns nil, panics with string / error / struct / nil} (thorough: additionally every PAIR of fault positions with invocation <=2 x {error, panic}^2); each execution: Build, scope, three attempts at the root service, a second scope, Close; oracle: no panic escapes, an error fault is reachable with errors.As (same pointer), a panic fault is a ConstructorPanicError carrying the value, retries without a pending fault succeed, lifetime / wiring / disposal oracles hold (nothing half-built is cached, nothing successfully built is rebuilt or leaked). API inputs: ~1,000 calls of every exported entry point with nil / typed-nil / zero / unregistered / mismatched / invalid arguments must not panic; Must* helpers panic iff the plain call errs. Schedules: a resolution overlapping Close(scope|provider) whose late instance fails its own Close - the returned error must still satisfy errors.Is(disposed) (bound 2/3). Error classes: 30 routes through Build / resolution / registration / module wrappers must be recognisable with errors.Is/As. distinct = canonical observation strings.",
 		Assume:      []string{"keys are hashable (the property's precondition)", "a constructor returning a typed nil pointer is accepted as an instance: only 'no panic, consistent retry' is demanded there"},
 		MinOutcomes: 10,
 		Jobs: func(tier string) []mc.Job {
+			c15Pairs = tier == "thorough"
 			jobs := []mc.Job{{Name: "c15-inputs", Weight: 5, Run: c15Inputs}, {Name: "c15-classes", Run: c15Classes}}
 			for _, sh := range []string{"chain", "diamond", "group", "instruct", "optional", "optional-deep", "multi", "iface", "resobj-err"} {
 				sh := sh
